@@ -99,16 +99,21 @@ struct Nest
   static inline sbx* box[2] = { nullptr, nullptr };
   static inline CB* cb[2] = { nullptr, nullptr };
   static inline std::vector<std::pair<int, int>> log; // (instance index or -1, argument)
+  static inline int throw_at = -1; // the callback called with this argument throws (after logging); its caller's callback catches
   static int which(sbx& s) { return &s == box[0] ? 0 : (&s == box[1] ? 1 : -1); }
   template<int Me>
   static tainted<int, B> fn(sbx& sb, tainted<int, B> d)
   {
     int depth = d.UNSAFE_unverified();
     log.push_back({ which(sb), depth });
+    if (depth >= 0 && depth == throw_at) throw std::runtime_error("injected failure inside a nested callback");
     if (depth > 0) {
       // invoke the *other* sandbox from inside this callback
       int other = 1 - Me;
-      be::BT<B>::template invoke<int(int (*)(int), int)>(*box[other], "nest", *cb[other], depth - 1);
+      if (throw_at >= 0) {
+        // the failure of the nested invocation is handled here and this callback carries on
+        try { be::BT<B>::template invoke<int(int (*)(int), int)>(*box[other], "nest", *cb[other], depth - 1); } catch (const std::exception&) {}
+      } else be::BT<B>::template invoke<int(int (*)(int), int)>(*box[other], "nest", *cb[other], depth - 1);
     }
     return d;
   }
@@ -144,6 +149,32 @@ static void nesting(mon::Rng& rng)
                  mon::fmt("depth %d from sandbox %d: observed (sandbox,arg) trace %s, expected %s", depth, start, g.c_str(), w.c_str()));
         } else n_nest_ok++;
       }
+    }
+    // an exception thrown by a nested callback, caught one level up; the enclosing levels then complete normally.
+    // (not with the dylib backend: its guest is C code without unwind information)
+    if constexpr (!std::is_same_v<B, rlbox_dylib_sandbox>) {
+      for (int depth = 1; depth <= 6; depth++)
+        for (int t = 0; t < depth; t++)
+          for (int start = 0; start < 2; start++) {
+            N::log.clear();
+            N::throw_at = t;
+            mon::ctx("%s/nesting-with-caught-exception | depth %d start %d thrower %d", be::BT<B>::name(), depth, start, t);
+            bool ab = mon::aborts([&] { be::BT<B>::template invoke<int(int (*)(int), int)>(*N::box[start], "nest", *N::cb[start], depth); });
+            N::throw_at = -1;
+            auto who = [&](int d) { return (depth - d) % 2 == 0 ? start : 1 - start; };
+            std::vector<std::pair<int, int>> want;
+            for (int d = depth; d >= t; d--) want.push_back({ who(d), d });
+            for (int d = t + 1; d <= depth; d++) want.push_back({ who(d), -1 - d });
+            mon::evals();
+            mon::distinct(mon::mix(mon::mix(0x9e58, depth * 8 + t), mon::mix(start, std::hash<std::string>()(be::BT<B>::name()))));
+            if (ab || N::log != want) {
+              std::string g, w;
+              for (auto& e : N::log) g += mon::fmt("(%d,%d)", e.first, e.second);
+              for (auto& e : want) w += mon::fmt("(%d,%d)", e.first, e.second);
+              report(be::BT<B>::name(), "nested-invoke-callback-after-caught-exception", ab ? "abort" : "callback-saw-wrong-sandbox-or-order",
+                     mon::fmt("depth %d from sandbox %d, callback with argument %d throws, its caller catches: observed (sandbox,arg) trace %s, expected %s", depth, start, t, g.c_str(), w.c_str()));
+            } else n_nest_ok++;
+          }
     }
     (void)rng;
   }
